@@ -96,8 +96,13 @@ func checkC06Compare(c *Ctx) {
 		r := bf.canon(call.Args[2])
 		l, rr := strings.Index(r, "p3"), strings.Index(r, "p4")
 		okc := bf.canon(call.Args[1]) == "p2" && l >= 0 && rr > l && strings.Count(r, "p3") == 1 && strings.Count(r, "p4") == 1
+		// operands are taken through the exact accessor of their kind: ToString
+		// repairs invalid UTF-8 (lossy) and must not feed a comparison
+		if strings.Contains(r, ".ToString(") || strings.Contains(r, ".ToBytes(") {
+			okc = false
+		}
 		c.check("compare.operand-order", fmt.Sprintf("%s#cmp%d", b.Name, n), call.Pos(), okc,
-			"every comparison in BinOp must pass its own operator and Compare(left, right) — left first, each operand once — to cmpTonode; found "+r)
+			"every comparison in BinOp must pass its own operator and Compare(left, right) — left first, each operand once, through the exact accessor of its kind (Num, StringValue/stringValue, bytesValue; never the lossy ToString) — to cmpTonode; found "+r)
 		// numbers are ordered by apd alone: the three-way result of a numeric
 		// comparison is (*apd.Decimal).Cmp, directly or through a function
 		// that only delegates to it with the operands in order
